@@ -119,6 +119,13 @@ func (s *lightClientStateProvider) Commit(ctx context.Context, height uint64) (*
 	if err != nil {
 		return nil, err
 	}
+	// The light client only checks signatures until it has seen +2/3 of the voting power. This
+	// commit is stored as the seen commit of the block and consensus rebuilds its last commit
+	// votes from it, verifying every single signature, so all of them have to be checked here.
+	err = header.ValidatorSet.VerifyCommit(s.lc.ChainID(), header.Commit.BlockID, header.Height, header.Commit)
+	if err != nil {
+		return nil, fmt.Errorf("commit for height %v has an invalid signature: %w", height, err)
+	}
 	return header.Commit, nil
 }
 
